@@ -215,6 +215,82 @@ theorem C13_try_lock_then_unlock_api_is_exact (pol : Policy) (t : Tid) (C : Ctx)
     simp only [Bool.false_eq_true, if_false] at htry
     simp [guardSession, solo_mark, solo_bindX, htry, hf, solo]
 
+theorem solo_keyDrop {ε α : Type} (pol : Policy) (t : Tid) (c : Resp → Prog ε α) (e : Env) :
+    solo pol t (.op .keyDrop c) e = solo pol t (c .ok) (e.setKey t false) := by
+  simp [solo, Env.step]
+
+-- @theorem C13_try_lock_then_drop_api_is_exact : the same with the guard dropped instead of unlocked (the key is consumed with it): every lock and every poison flag exactly as before the call, the thread's key flag cleared
+theorem C13_try_lock_then_drop_api_is_exact (pol : Policy) (t : Tid) (C : Ctx) (c : Nat) (m : Mode)
+    (u : UserSt) (e : Env) (hout : C.outer = false) (hl : lockable (C.shape c) = true)
+    (hnd : (declLeaves (C.shape c)).Nodup) (hq : Quiescent e) :
+    solo pol t (guardSession C (C.shape c)
+        { coll := c, api := .tryLock, mode := m, key := .owned, body := [], exit := .drop } u) e =
+      if (holdsOf (C.shape c) m).all (freeFor e) then
+        .done (if (poisonIds (C.shape c)).any e.poison then mkOutPoisoned else mkOutOk,
+               { u with keys := u.keys - 1 }) (e.setKey t false)
+      else .done (mkOutWouldBlock, u) e := by
+  have htry := C13_try_is_exact pol t C.W (C.shape c) m e hl hnd hq
+  by_cases hfree : (holdsOf (C.shape c) m).all (freeFor e) = true
+  · rw [hfree] at htry
+    simp only [if_true] at htry
+    simp only [hfree, if_true]
+    have hrestore : relAll t (itemsFp m (guardItems (C.shape c))) (takeAll t (shapeFp C.W (C.shape c) m) e) = e := by
+      rw [itemsFp_guardItems]
+      apply relAll_takeAll_perm pol t _ _ e (shapeFp_perm C.W m (C.shape c) hl).symm
+        (shapeFp_ids_nodup C.W (C.shape c) m hl hnd) (quiescent_notWaiting t e hq)
+      intro p hp
+      rw [avail_quiescent pol e hq]
+      exact List.all_eq_true.1 hfree p ((shapeFp_perm C.W m (C.shape c) hl).mem_iff.1 hp)
+    have hpois : (poisonIds (C.shape c)).any (takeAll t (shapeFp C.W (C.shape c) m) e).poison =
+        (poisonIds (C.shape c)).any e.poison := by simp
+    simp only [guardSession, solo_mark, solo_bindX, htry, if_true, guardPhase, guardDropN, hout, Prog.bind, solo_readPoison,
+      Bool.false_or, bodySteps, solo, solo_guardDrop, Bool.false_eq_true, if_false, hrestore, hpois, solo_keyDrop]
+  · have hf : (holdsOf (C.shape c) m).all (freeFor e) = false := by
+      cases h : (holdsOf (C.shape c) m).all (freeFor e)
+      · rfl
+      · exact absurd h hfree
+    rw [hf] at htry
+    simp only [Bool.false_eq_true, if_false] at htry
+    simp [guardSession, solo_mark, solo_bindX, htry, hf, solo]
+
+-- @theorem C13_scoped_try_lock_api_is_exact : scoped_try_lock / scoped_try_read with a lent key and an empty closure, with no concurrent activity: WouldBlock with everything as before if some declared leaf is busy; otherwise the closure runs and the call returns with every lock and flag EXACTLY as before the call
+theorem C13_scoped_try_lock_api_is_exact (pol : Policy) (t : Tid) (C : Ctx) (c : Nat) (m : Mode)
+    (u : UserSt) (e : Env) (hl : lockable (C.shape c) = true)
+    (hnd : (declLeaves (C.shape c)).Nodup) (hq : Quiescent e) :
+    solo pol t (scopedSession C (C.shape c)
+        { coll := c, api := .scopedTry, mode := m, key := .lent, body := [], exit := .ret } u) e =
+      if (holdsOf (C.shape c) m).all (freeFor e) then
+        .done (if (poisonIds (C.shape c)).any e.poison then mkOutPoisoned else mkOutOk, u) e
+      else .done (mkOutWouldBlock, u) e := by
+  have htry := C13_try_is_exact pol t C.W (C.shape c) m e hl hnd hq
+  have hd := toRaw_det (pol := pol) (t := t) C.W (C.shape c) hl
+  by_cases hfree : (holdsOf (C.shape c) m).all (freeFor e) = true
+  · rw [hfree] at htry
+    simp only [if_true] at htry
+    simp only [hfree, if_true]
+    have hrestore : relAll t (shapeFp C.W (C.shape c) m) (takeAll t (shapeFp C.W (C.shape c) m) e) = e := by
+      apply relAll_takeAll_perm pol t _ _ e (List.Perm.refl _)
+        (shapeFp_ids_nodup C.W (C.shape c) m hl hnd) (quiescent_notWaiting t e hq)
+      intro p hp
+      rw [avail_quiescent pol e hq]
+      exact List.all_eq_true.1 hfree p ((shapeFp_perm C.W m (C.shape c) hl).mem_iff.1 hp)
+    have hpois : (poisonIds (C.shape c)).any (takeAll t (shapeFp C.W (C.shape c) m) e).poison =
+        (poisonIds (C.shape c)).any e.poison := by simp
+    have hcl : ∀ (c' : Unit → Prog Unit Unit) (e1 : Env),
+        solo pol t (Prog.handle () ((Prog.done ()).bindX Prog.unwind fun _ => Prog.done ()) c') e1 = .done () e1 := by
+      intro c' e1
+      exact solo_handle_done () _ c' e1 e1 () (by simp [Prog.bindX, solo])
+    simp only [scopedSession, scopedSessionWith, scopedHeld, solo_mark, solo_bindX, htry, if_true, Prog.bind,
+      solo_readPoison, Bool.false_or, bodySteps, solo, hcl, Bool.false_eq_true, if_false, hd.rel, hrestore, hpois,
+      dropKeyIf]
+  · have hf : (holdsOf (C.shape c) m).all (freeFor e) = false := by
+      cases h : (holdsOf (C.shape c) m).all (freeFor e)
+      · rfl
+      · exact absurd h hfree
+    rw [hf] at htry
+    simp only [Bool.false_eq_true, if_false] at htry
+    simp [scopedSession, scopedSessionWith, solo_mark, solo_bindX, htry, hf, solo]
+
 /-- non-vacuity: a concrete table where one of three leaves is read-held by another thread
 meets the hypotheses; by the theorem `try_read` of a boxed-in-retry nest succeeds and
 `try_lock` fails -/
